@@ -296,9 +296,8 @@ Definition clampr (len : N) (r : range) : range := (N.min (fst r) len, N.min (sn
 Definition hand_adapter (fmt : Z) (ids : list Z) (rg : Z) (rs : list range) (tot : N) : adapter Z :=
   if fmt =? 0 then jsonl_adapter tok_de (lines (write_all tok_ser ids)) rs tot
   else if fmt =? 1 then
-    mk_adapter (Some tot)
-               (ad_split (rows_adapter ids (map (clampr (nlen ids)) rs) tot))
-               (ad_clone (rows_adapter ids [] (N.min tot (nlen ids))))
+    let a := rows_adapter ids (map (clampr (nlen ids)) rs) (N.min tot (nlen ids)) in
+    mk_adapter (Some tot) (ad_split a) (ad_clone a)
   else pq_adapter (pq_groups ids rg) rs tot.
 (* number of shardable units of a file: lines / rows / row groups *)
 Definition fmt_units (fmt : Z) (ids : list Z) (rg : Z) : N :=
